@@ -21,15 +21,17 @@ def dtype(kind, t):
     return "D<%s, %s%s>" % (kind, t[0], (", %d" % t[1]) if t[1] else "")
 
 
-TYPES8 = [("u8", 0), ("u8", 4), ("u16", 0), ("u32", 0), ("u32", 8), ("u32", 16), ("u64", 0), ("u64", 8)]
+TYPES6 = [("u8", 0), ("u16", 0), ("u32", 0), ("u32", 8), ("u32", 16), ("u64", 0)]
 
 
 def family(tier):
     """returns list of (name, [descriptor strings]).
     quick:    every list of <= 2 logical parameters over {P,F,V} x TYPES10 (930) plus the three-parameter family A
               "aligned plain parameter, lower-aligned parameter of any kind, aligned plain/fixed parameter" (480)
-    thorough: the two-parameter lists with three count types, every three-parameter list over {P,F,V} x TYPES8
-              (13 824) and the four-parameter family B (aligned head, plain/fixed filler, any middle, aligned tail)"""
+    thorough: the two-parameter lists with three count types, every three-parameter list over {P,F,V} x TYPES6
+              (5 832) and the four-parameter family B (aligned head, plain/fixed filler, any middle, aligned tail).
+              (The first version used eight types and up to eight count cells per case; one thorough run then took
+              two hours, five properties use it, so it was cut to what finishes in minutes.)"""
     lists = []
     seen = set()
 
@@ -61,8 +63,8 @@ def family(tier):
         for params in itertools.product(head, middle, tail):
             add(params, "c8")
     else:
-        opts8 = [(k, t) for k in "PFV" for t in TYPES8]
-        for params in itertools.product(opts8, repeat=3):
+        opts6 = [(k, t) for k in "PFV" for t in TYPES6]
+        for params in itertools.product(opts6, repeat=3):
             add(params, "c8")
         filler = [(k, t) for k in "PF" for t in [("u32", 0), ("u8", 0)]]
         for params in itertools.product(head[:3], filler, middle, tail[:6]):
@@ -115,14 +117,15 @@ def run_layout(prop, tier, t0):
         return {}, [], internal
     os.makedirs(os.path.join(C.OUT, "runs"), exist_ok=True)
     cmds, outs = [], {}
-    nmax, cmax, fmax = (3, 3, 3) if tier == "quick" else (4, 3, 3)
+    # cells: bound on the count cells (elements x VaryingSize parameters) whose values are enumerated completely
+    nmax, cmax, fmax, cells = (3, 3, 3, 8) if tier == "quick" else (4, 3, 3, 6)
     for k, path, n in files:
         name = "layout_%s_%d" % (tag, k)
         of = os.path.join(C.OUT, "runs", "%s_%s_%s.json" % (prop, tier, name))
         if os.path.exists(of):
             os.unlink(of)
         outs[name] = of
-        cmds.append((name, [builds[name][0], "--out", of, "--nmax", str(nmax), "--cmax", str(cmax), "--fmax", str(fmax)]))
+        cmds.append((name, [builds[name][0], "--out", of, "--nmax", str(nmax), "--cmax", str(cmax), "--fmax", str(fmax), "--cells", str(cells)]))
     res = C.run_many(cmds)
     cov = dict(layout_lists=0, layout_cases=0, layout_elements=0, layout_samples=[])
     violations = []
